@@ -23,7 +23,9 @@ FM_LINES = ["title: Test", "key: 'it''s \"quoted\"...'", "list:", "  - a", "  - 
             "unicode: naïve 中文 😀", "block: |", "    indented text", "    ...", "--- not a delimiter", "url: http://x.y/z?a=1&b=2",
             " ---x", "anchors: &a *a", "name: Cafe\u0301 \u212b \u2126 \u1100\u1161 \ufb01 \uf900", "nbsp:\u00a0x\u200b", "q: \"it's\"", "date: 2024-01-01", "{% tag %}", "> quote", "1. item", "```"]
 BODIES = ["Body text here.\n", "{% field %}\n- item 1\n- item 2\n{% /field %}\n", "<!-- t -->\n| a | b |\n|---|---|\n| 1 | 2 |\n<!-- /t -->\n\ntext\n", "# Heading\n\nSome   text with  spaces that is long enough to wrap when the width is small, really.\n",
-          "- a\n- b\n\n1. x\n2. y\n", "Para one.\n\nPara \"two\" it's... fine.\n", "> quote\n\n```\ncode\n```\n"]
+          "- a\n- b\n\n1. x\n2. y\n", "Para one.\n\nPara \"two\" it's... fine.\n", "> quote\n\n```\ncode\n```\n",
+          # every line indented (a docstring): the common indent goes, with any line ends
+          "    aaa bbb\n\n    ccc\n", "  - a\n\n  - b\n\n        code\n"]
 
 
 class C07(Prop):
